@@ -12,18 +12,18 @@ WORK = run.WORK
 LIFE = {
     "C01": dict(models=["base_foreign", "restart"], tmodels=["t_restart3", "overlap"], fams=["other", "base", "amtless", "twohash"],
                 crashes=(0, 1), wf=0, rf=0, extra=["class", "twin_key"]),
-    "C02": dict(extra=["wait_timeout", "slow_decision", "write_fault"], focus=["Overlap", "Live"], models=["restart", "faults"], tmodels=["t_restart3", "t_faults2", "overlap"], fams=["base", "overlap", "amtless", "replay"],
+    "C02": dict(extra=["wait_timeout", "slow_decision", "write_fault", "late_replay"], focus=["Overlap", "Live"], models=["restart", "faults"], tmodels=["t_restart3", "t_faults2", "overlap"], fams=["base", "overlap", "amtless", "replay"],
                 crashes=(0, 1, 1), wf=1, rf=0, trf=1),
     "C03": dict(models=["base_conf", "base_amtless", "base_zero", "restart"], tmodels=["t_restart3", "base_tot"], fams=["base", "amtless", "overlap", "other"],
                 crashes=(0, 1), wf=0, rf=0, extra=["class"]),
     "C04": dict(models=["base_exp"], tmodels=["base_conf", "overlap"], fams=["base", "overlap"], crashes=(0,), wf=0, rf=0, heights=True),
     "C05": dict(focus=["Overlap", "Live"], models=["overlap", "overlapc", "restart"], tmodels=["overlap3", "t_overlap2", "t_restart3"], fams=["overlap", "overlap3", "base"],
-                crashes=(0, 1, 1), wf=0, rf=0, extra=["e2e_lostreply", "write_fault"]),
+                crashes=(0, 1, 1), wf=0, rf=0, extra=["e2e_lostreply", "write_fault", "late_replay"]),
     "C06": dict(live=["live"], models=["base_conf", "faults"], tmodels=["base_exp", "base_tot", "t_faults2"], fams=["base", "amtless", "other", "overlap", "twohash"],
                 crashes=(0,), wf=1, rf=1, extra=["garbage", "class-raw", "e2e_burst", "slow_decision"]),
     "C07": dict(models=["base_conf", "base_exp", "base_tot", "base_amtless"], tmodels=["overlap"], fams=["base", "amtless"],
                 crashes=(0,), wf=0, rf=0, extra=["slow_decision"]),
-    "C08": dict(extra=["wait_timeout", "write_fault"], focus=["Overlap", "Live"], models=["overlap", "faults", "restart"], tmodels=["t_overlap2", "t_faults2"], fams=["overlap", "base"],
+    "C08": dict(extra=["wait_timeout", "write_fault", "late_replay"], focus=["Overlap", "Live"], models=["overlap", "faults", "restart"], tmodels=["t_overlap2", "t_faults2"], fams=["overlap", "base"],
                 crashes=(0, 1), wf=1, rf=0),
     "C09": dict(models=["wedge", "faults"], tmodels=["t_faults2", "restart"], fams=["base", "overlap"], crashes=(0, 1, 1), wf=1, rf=0, probes=3,
                 extra=["write_fault"]),
@@ -31,7 +31,7 @@ LIFE = {
     "C12": dict(models=["base_tot", "base_exp", "base_zero"], tmodels=["base_conf"], fams=["base", "amtless"], crashes=(0,), wf=0, rf=0),
     "C13": dict(models=["base_foreign"], tmodels=["twohash"], fams=["other", "twohash"], crashes=(0,), wf=0, rf=0, extra=["class"]),
     "C10": dict(models=["base_foreign", "base_amtless"], tmodels=["base_conf"], fams=["other", "amtless"], crashes=(0,), wf=0, rf=0, extra=["class"]),
-    "C15": dict(models=["provider"], tmodels=[], fams=["base"], crashes=(0,), wf=0, rf=0, direct=3, allrate=1, extra=["e2e_codes", "many_parts"]),
+    "C15": dict(models=["provider"], tmodels=[], fams=["base"], crashes=(0,), wf=0, rf=0, direct=3, allrate=1, trf=1, extra=["e2e_codes", "many_parts"]),
     "C16": dict(models=["provider"], tmodels=[], fams=["base"], crashes=(0,), wf=0, rf=0, direct=3, allrate=1, extra=["many_parts"]),
     "C14": dict(extra=["e2e_iso", "poll_window"], live=["iso"], models=["twohash"], tmodels=["t_twohash2"], fams=["twohash"], crashes=(0,), wf=0, rf=0, freeze=True),
 }
@@ -250,6 +250,10 @@ def build_jobs(pid, tier, seed, workdir):
         dj = scen.twin_key_jobs(start_run=runno)
         jobs += dj; runno += len(dj)
         sched_stats["directed twin-key schedules"] = len(dj)
+    if "late_replay" in ex:
+        dj = scen.late_replay_jobs(start_run=runno)
+        jobs += dj; runno += len(dj)
+        sched_stats["directed late-replay schedules"] = len(dj)
     if "many_parts" in ex:
         dj = scen.many_parts_jobs(start_run=runno)
         jobs += dj; runno += len(dj)
